@@ -99,6 +99,9 @@ func (w *clockWorld) randomInstant(s *Stream) time.Time {
 	if s.Bool(1, 2) {
 		ns = int64(s.Intn(1000000000))
 	}
+	if tr := zoneTransitions(w.loc); len(tr) > 0 && s.Intn(6) == 0 {
+		u = tr[s.Intn(len(tr))] + int64(s.Intn(7200)) - 3600 // within an hour of a transition of the process zone
+	}
 	locs := []*time.Location{w.loc, time.UTC, time.FixedZone("", 19800), time.FixedZone("X", -34200)}
 	for _, zn := range []string{"Asia/Shanghai", "America/New_York", "Australia/Lord_Howe", "Asia/Kathmandu", "Europe/London"} {
 		if l := loadZone(zn); l != nil {
@@ -270,6 +273,12 @@ func (w *clockWorld) opDate(s *Stream) {
 	} else {
 		m, d = int64(s.Intn(111))-50, int64(s.Intn(111))-50
 	}
+	if tr := zoneTransitions(w.loc); len(tr) > 0 && s.Intn(4) == 0 {
+		// the day a zone transition falls on, or a neighbour: local midnight may not exist or exist twice
+		f := civilOf(time.Unix(tr[s.Intn(len(tr))], 0).In(w.loc))
+		y, m, d = f.Y, f.M, f.D+int64(s.Intn(3))-1
+		w.rc.probe("date_aimed_at_a_zone_transition")
+	}
 	text := "date(" + strconv.FormatInt(y, 10) + ", " + strconv.FormatInt(m, 10) + ", " + strconv.FormatInt(d, 10) + ")"
 	w.ops = append(w.ops, text)
 	v, err, pan := w.eval("$t = " + text)
@@ -331,6 +340,19 @@ func (w *clockWorld) opAddDate(s *Stream) {
 		dy, dm, dd = int64(s.Intn(801))-400, int64(s.Intn(10001))-5000, int64(s.Intn(10001))-5000
 	default:
 		dy, dm, dd = 0, int64(s.Intn(3))-1, int64(s.Intn(3))-1
+	}
+	if tr := zoneTransitions(t.Location()); len(tr) > 0 && s.Intn(4) == 0 {
+		// land on the civil day (and near the wall-clock time) of a transition of the time's own zone
+		target := civilOf(time.Unix(tr[s.Intn(len(tr))], 0).In(t.Location()))
+		f := civilOf(t)
+		dy, dm = int64(s.Intn(3))-1, int64(s.Intn(5))-2
+		// choose the day shift so that y+dy / m+dm / d+dd normalises to the target day
+		dd = daysFromCivil(target.Y, target.M, target.D) - normalisedDays(f.Y+dy, f.M+dm, f.D)
+		if dd > 3000000 || dd < -3000000 {
+			dy, dm, dd = 0, 0, int64(s.Intn(3))-1
+		} else {
+			w.rc.probe("adddate_aimed_at_a_zone_transition")
+		}
 	}
 	w.r.SetThisValue("t0", t)
 	text := "addDate(t0, " + strconv.FormatInt(dy, 10) + ", " + strconv.FormatInt(dm, 10) + ", " + strconv.FormatInt(dd, 10) + ")"
